@@ -30,6 +30,9 @@ def path_history(rng, hid, length):
             setup.append({"call": "mkfile", "path": nme, "bytes": [rng.randrange(256) for _ in range(rng.choice([0, 3, 9]))]})
     if rng.random() < 0.5:
         setup.append({"call": "mklink", "path": "l", "target": rng.choice(["a", "nowhere", "d/c"])})
+    loop = rng.random() < 0.35
+    if loop:
+        setup.append({"call": "mklink", "path": "loop", "target": "loop"})          # can never be resolved
     calls = []
     dirfd_d = None
     nextfd = 4
@@ -37,7 +40,7 @@ def path_history(rng, hid, length):
         abi = rng.choice("pu")
         use_d = dirfd_d is not None and rng.random() < 0.3
         dirfd = dirfd_d if use_d else 3
-        names = ["c", "e", "n"] if use_d else ["a", "b", "d", "d/c", "d/e", "l", "n", "d/n", "x/n", ""]
+        names = ["c", "e", "n"] if use_d else ["a", "b", "d", "d/c", "d/e", "l", "n", "d/n", "x/n", ""] + (["loop", "loop/x", "loop/x"] if loop else [])
         name = rng.choice(names)
         # a trailing slash asks for a directory: the host decides, the resolved path must keep it
         raw = name + "/" if name and rng.random() < 0.15 else name
